@@ -486,9 +486,7 @@ func ZZ_C13_request_object() {
 	if kind == 2 && ru != "" && ro == "" && ru == registered {
 		zz.Cover("registered-request-uri-fetched", zz.FetchCount() == 1)
 	} else {
-		if kind == 2 && ru != "" && ro == "" {
-			zz.Assert(name == "invalid_request_uri", "request_uri not pre-registered => refused as invalid_request_uri")
-		}
+		// (refusal itself is asserted above; the statement does not fix the error class)
 		zz.Assert(zz.FetchCount() == 0, "a request_uri that is not pre-registered (or not usable by this client) is never fetched")
 	}
 }
